@@ -79,6 +79,7 @@ def explore(tier, seed):
     chunks += [("bump", p, tier) for p in dict.fromkeys(bump_pats)]
     chunks += [("chain", p, 1000 if tier == "thorough" else 200) for p in ("{pycalver}", "{semver}")]
     chunks += [("dispatch", p, tier) for p in NAMED + pats[len(NAMED) :: 11]]
+    chunks += [("project-chain", p, 14 if tier == "quick" else 60) for p in PEP_MAPPED]
     return pool.run_chunks(run_chunk, chunks)
 
 
@@ -132,6 +133,8 @@ def run_chunk(chunk):
         bump_graph(st, pattern, arg)
     elif kind == "chain":
         chain(st, pattern, arg)
+    elif kind == "project-chain":
+        project_chain(st, pattern, arg)
     else:
         dispatch(st, pattern, arg)
     return st
@@ -281,6 +284,63 @@ def chain(st, pattern, length):
     st.sample({"chain": pattern, "steps": length, "end": cur})
 
 
+def project_chain(st, pattern, length):
+    """A project with {version} and {pep440_version} occurrences updated again and again (tags cycling through every
+    value): what one update writes must be found again by the next one, and must denote the announced version."""
+    d = pool.fresh_dir("c20p")
+    os.chdir(d)
+    fs = L.fields(pattern)
+    state = state_for(pattern, dt.date(2020, 6, 15), "1001" if "bid" in fs else None, "final" if "tag" in fs else None)
+    old = L.render(pattern, state)
+    pep_old = str(pv.Version(old)) if bg.is_pep440(old) else old
+    cfg = (f'[bumpver]\ncurrent_version = "{old}"\nversion_pattern = "{pattern}"\n\n[bumpver.file_patterns]\n'
+           '"bumpver.toml" = [\'current_version = "{version}"\']\n"setup.py" = [\'version="{pep440_version}"\', "tag {version} "]\n')
+    world.write_tree({"bumpver.toml": cfg.encode(), "setup.py": f'setup(version="{pep_old}")\n# tag {old} \n'.encode()})
+    tags = ["post", "dev", "beta", "final", "rc", "alpha", "post", "final", "dev"]
+    date = dt.date(2020, 6, 15)
+    cur = old
+    for i in range(length):
+        date += dt.timedelta(days=17)
+        flags = ["--date", date.isoformat()]
+        if "tag" in fs:
+            flags += ["--tag", tags[i % len(tags)]]
+        if "patch" in fs:
+            flags += ["--patch"]
+        o = world.cli("update", "--no-fetch", *flags)
+        st.evaluations += 1
+        st.transitions += 1
+        st.validated += 1
+        case = {"pattern": pattern, "project_chain_step": i, "old": cur, "flags": flags}
+        st.observe((case, o.exit, o.crashed, o.new_version))
+        if o.exit != 0:
+            st.outcomes["violation"] += 1
+            st.violation(f"C20:project-chain-stuck:{pattern}:after-tag-{tags[(i - 1) % len(tags)] if i else 'final'}", case,
+                         {"exit": o.exit, "crashed": o.crashed, "log": [m for _l, m in o.log if "No match" in m or "Invalid" in m][:2],
+                          "setup.py": world.read_tree(".")["setup.py"].decode()})
+            break
+        new = o.new_version
+        text = world.read_tree(".")["setup.py"].decode()
+        m = re.fullmatch(r'setup\(version="(.*)"\)\n# tag (.*) \n', text)
+        if not m or m.group(2) != new:
+            st.outcomes["violation"] += 1
+            st.violation(f"C20:project-chain-file-disagrees:{pattern}", case, {"file": text, "announced": new})
+            break
+        if bg.is_pep440(new):
+            try:
+                same = pv.Version(m.group(1)) == pv.Version(new)
+            except pv.InvalidVersion:
+                same = False
+            if not same:
+                st.outcomes["violation"] += 1
+                st.violation(f"C20:pep440-occurrence-is-another-version:{pattern}", case, {"file": text, "announced": new})
+                break
+        st.state(pattern, "project", new)
+        st.nontriv(pattern, "project", new)
+        st.outcomes["project-chain:step"] += 1
+        cur = new
+    os.chdir("/")
+
+
 def dispatch(st, pattern, tier):
     """test / update --dry / update / config loader must use the same engine; pep440 occurrences must denote the version."""
     d = pool.fresh_dir("c20")
@@ -348,6 +408,8 @@ def replay(case, st):
     world.set_today(bg.FAR_TODAY)
     if case.get("dispatch"):
         dispatch(st, case["pattern"], "thorough")
+    elif "project_chain_step" in case:
+        project_chain(st, case["pattern"], case["project_chain_step"] + 2)
     elif "chain_step" in case:
         chain(st, case["pattern"], case["chain_step"] + 2)
     elif "flags" in case:
